@@ -790,6 +790,8 @@ func (rr *vpRunner) runs(cfg config, mi *msgInfo, r *rng) {
 
 func engineReflectViewProg(cfg config, o *out) {
 	schemas := loadSchemas()
+	cc := newClassCov("reflectviewprog")
+	defer cc.emit(o)
 	for _, si := range schemas {
 		o.raw("SCHEMA\t" + si.id + "\t=\t" + si.sexp())
 		r := newRng(cfg.seed, "reflectviewprog/"+si.id)
@@ -836,6 +838,7 @@ func engineReflectViewProg(cfg config, o *out) {
 				if all {
 					o.kase("REFLECTVIEWPROG", append(append([]string{}, args...), "all", "eqb"), "same")
 					o.count("wrappers_fully_translated")
+					cc.view(si, mi, f)
 					o.count("wrappers_fully_translated_" + t.kind)
 				}
 			}
